@@ -451,7 +451,16 @@ func genImport(gen *protogen.Plugin, g *generator.GeneratedFile, f *fileInfo, im
 
 	// Generate public imports by generating the imported file, parsing it,
 	// and extracting every symbol that should receive a forwarding declaration.
-	impGen := GenerateFile(gen, impFile, g)
+	// The imported file is generated into a file of its own, which is never
+	// written out (generating it into g would put its declarations into the
+	// importing file).
+	ig := &generator.GeneratedFile{
+		GeneratedFile: gen.NewGeneratedFile(impFile.GeneratedFilenamePrefix+".public_import.go", impFile.GoImportPath),
+		Ext:           g.Ext,
+		LocalPackages: g.LocalPackages,
+	}
+	ig.P("package ", impFile.GoPackageName)
+	impGen := GenerateFile(gen, impFile, ig)
 	impGen.Skip()
 	b, err := impGen.Content()
 	if err != nil {
